@@ -352,14 +352,17 @@ def ob_Q(cfg, noise):
 
 
 @obligation("solver/agrees_with_channel_and_first_principles", params=[{"cfg": n, "noise": nz} for n in ("K2", "K3") for nz in ("sym", "none")] +
-            [{"cfg": "K3", "noise": nz, "prec": "explicit_full_F"} for nz in ("sym", "none")],
-            timeout=120,
+            [{"cfg": "K3", "noise": nz, "prec": "explicit_full_F"} for nz in ("sym", "none")] +
+            [{"cfg": "K2", "noise": "sym", "then": "channel_changes"}],
+            timeout=240,
             desc="IASolverBaseClass.calc_SINR after set_precoders / set_receive_filters with symbolic matrices and powers, and again after the "
                  "power is CHANGED through the P setter: equals the first-principles value for precoders F*sqrt(P_current) and filters "
                  "(W^H H_kk F sqrt(P_current))^-1 W^H - i.e. agrees with the channel object; sum capacity == sum log2(1+SINR); dB == 10 log10; "
                  "prec=explicit_full_F: set_precoders(F, full_F, P) with an INDEPENDENT symbolic full_F (a precoder that uses only part of "
-                 "the power, as the MMSE / stream-reduction solvers set it): the transmitted precoder is full_F")
-def ob_solver(cfg, noise, prec="F_and_P"):
+                 "the power, as the MMSE / stream-reduction solvers set it): the transmitted precoder is full_F; then=channel_changes: the "
+                 "channel object gets another path loss and then a new realisation while the precoders stay (receivers adapt): the reported "
+                 "SINRs are those of the CURRENT channel")
+def ob_solver(cfg, noise, prec="F_and_P", then=None):
     cf = CONFIGS[cfg]
 
     def body(c, it):
@@ -370,11 +373,12 @@ def ob_solver(cfg, noise, prec="F_and_P"):
         c.frac_propagation = False
         o, F, U, nv = _setup(c, it, cf, noise, pathloss=True)
         K = cf["K"]
-        H = it.getattr(o, "H")
+        Hbox = [it.getattr(o, "H")]
         s = it.call(alg.ClosedFormIASolver, [o])
         goals = []
 
         def check(P, tag, explicit=None):
+            H = Hbox[0]
             S = it.call(it.getattr(s, "calc_SINR"), [])
             fullF = np.empty(K, dtype=object)
             Ueff = np.empty(K, dtype=object)
@@ -412,6 +416,18 @@ def ob_solver(cfg, noise, prec="F_and_P"):
         it.call(it.getattr(s, "set_precoders"), [F, G, P])
         it.call(it.getattr(s, "set_receive_filters"), [None, U])
         allv = check(P, "initial power", G)
+        if then == "channel_changes":
+            # the channel OBJECT changes under the solver (new path loss, then a new realisation) while the precoders are kept and only
+            # the receivers adapt: every reported SINR is about the CURRENT channel
+            it.call(it.getattr(o, "set_pathloss"), [_pmat(c, "PLb", K, K)])
+            Hbox[0] = it.getattr(o, "H")
+            it.call(it.getattr(s, "set_receive_filters"), [None, U])
+            check(P, "after the channel's path loss changed", G)
+            it.call(it.getattr(o, "randomize"), [np.array(cf["Nr"]), np.array(cf["Nt"]), K])
+            Hbox[0] = it.getattr(o, "H")
+            it.call(it.getattr(s, "set_receive_filters"), [None, U])
+            check(P, "after a new channel realisation", G)
+            return goals
         cap = it.call(it.getattr(s, "calc_sum_capacity"), [])
         spec = 0
         for v in allv:
@@ -433,7 +449,45 @@ def ob_solver(cfg, noise, prec="F_and_P"):
         it.setattr(s, "P", list(P2))
         check(P2, "after P setter")
         return goals
-    return verify(body, timeout_ms=60000, check_side=False)
+
+    def rp_channel_changes(mv):
+        # history replay on the real classes: precoders kept, the channel object changes, receivers adapt
+        import pyphysim.channels.multiuser as mu
+        import pyphysim.ia.algorithms as alg
+        try:
+            rr = np.random.RandomState(11)
+            K = cf["K"]
+            ch = mu.MultiUserChannelMatrix()
+            ch.randomize(np.array(cf["Nr"]), np.array(cf["Nt"]), K)
+            ch.set_pathloss(rr.rand(K, K))
+            ch.noise_var = 0.05
+            s_ = alg.ClosedFormIASolver(ch)
+            F = np.empty(K, dtype=object)
+            U = np.empty(K, dtype=object)
+            for k in range(K):
+                F[k] = rr.randn(cf["Nt"][k], cf["Ns"][k]) + 1j * rr.randn(cf["Nt"][k], cf["Ns"][k])
+                F[k] = F[k] / np.linalg.norm(F[k], 'fro')
+                U[k] = rr.randn(cf["Nr"][k], cf["Ns"][k]) + 1j * rr.randn(cf["Nr"][k], cf["Ns"][k])
+            s_.set_precoders(F, None, np.array([1.5, 0.7, 2.0][:K]))
+            s_.set_receive_filters(None, U)
+            steps = [("initial", lambda: None), ("set_pathloss on the channel", lambda: ch.set_pathloss(rr.rand(K, K))),
+                     ("randomize on the channel", lambda: ch.randomize(np.array(cf["Nr"]), np.array(cf["Nt"]), K))]
+            for label, act in steps:
+                act()
+                s_.set_receive_filters(None, U)
+                got = s_.calc_SINR()
+                Hb = [[ch.get_Hkl(k, j) for j in range(K)] for k in range(K)]
+                fF, fW = s_.full_F, s_.full_W
+                for k in range(K):
+                    for l in range(cf["Ns"][k]):
+                        want = _fp_sinr(Hb, fF, fW, k, l, 0.05)
+                        if not (abs(got[k][l] - want) <= 1e-8 * abs(want)):
+                            return {"confirmed": True, "history": "set_precoders, set_receive_filters, calc_SINR; then %s, set_receive_filters, "
+                                    "calc_SINR" % label, "user": k, "stream": l, "solver.calc_SINR": float(got[k][l]), "first principles": float(want)}
+            return {"confirmed": False, "note": "real solver follows the current channel"}
+        except Exception as e:
+            return {"confirmed": False, "error": "replay crashed: %r" % (e,)}
+    return verify(body, timeout_ms=60000, check_side=False, replay=rp_channel_changes if then == "channel_changes" else None)
 
 
 # ------------------------------------------------------------------ bounded native
